@@ -282,6 +282,26 @@ def c15(ctx):
                       "one evaluation = one printed text parsed by the real parser and compared node by node; non-trivial = >= 10 nodes with ranges")
 
 
+@check("C16")
+def c16(ctx):
+    ctx.assumptions += ["TLC evaluates Static.tla (Valid is deliberately a subset of the scripts the language accepts) and the name walk over the node list of Syntax.tla",
+                        "the harness's classification of diagnostics by Go type name"]
+    front.c16(ctx)
+    return ctx.finish("model_checking", "typed programs from the generator (all six types, variables in every position, bounded overdraft and caps under send-all), "
+                      "two layouts each, and their name edits (delete / duplicate / rename a declaration, rename a use); Static!Valid decides which are asserted "
+                      "error-free; the multiset of unbound / duplicate / unused diagnostics must equal Static!NameDiagSet at the exact token ranges; "
+                      "non-trivial = a case with at least one expected name diagnostic")
+
+
+@check("C17")
+def c17(ctx):
+    ctx.assumptions += ["the generator's knowledge of which variable values are of the declared types", "error classes by Go type name"]
+    front.c17(ctx)
+    return ctx.finish("model_checking", "programs broken in 0-2 places (literal of another type, undeclared or mis-declared variable, wrong arity, unknown or misplaced function, "
+                      "allotment / unbounded source under send-all), checked by analysis.CheckSource and executed with values of the declared types; "
+                      "non-trivial = the checker reports no error (the implication's antecedent holds)")
+
+
 def replay(path):
     rp = json.load(open(path))
     prop = rp.get("property", "C00")
@@ -313,7 +333,7 @@ def replay(path):
             os.environ["VERIF_SEED"] = str(rp.get("seed", 1))
             c = Ctx("C11", "quick", int(rp.get("seed", 1)))
             return CHECKS["C11"](c)
-        if rp["kind"] in ("front", "diag", "nav"):
+        if rp["kind"] in ("front", "diag", "nav", "c17"):
             hits = front.confirm_front(ctx, rp)
             print(json.dumps(rp.get("observed_again"), indent=1)[:3000])
             if hits:
